@@ -8,6 +8,8 @@ import (
 	"sync"
 
 	"github.com/uhn/ggql/pkg/ggql"
+
+	"verifharness/gq/refluni"
 )
 
 // Strategy names the resolver strategy realising the data graph.
@@ -16,6 +18,16 @@ type Strategy string
 const (
 	Iface Strategy = "iface" // every node implements ggql.Resolver
 	Any   Strategy = "any"   // untyped nodes behind Root.AnyResolver
+	Refl  Strategy = "refl"  // Go structs and methods found by reflection (fixed universe U-exec only)
+)
+
+// Binding selects how Go types are bound to GraphQL object types for the reflection strategy.
+type Binding int
+
+const (
+	BindByName   Binding = iota // Go type name equals the GraphQL type name
+	BindRegister                // Root.RegisterType
+	BindGoDir                   // @go(type: ...) directive in the schema
 )
 
 // ListMode selects the Go shape handed to ggql for list values (the branches of resolveList).
@@ -34,6 +46,7 @@ type World struct {
 	Root     *ggql.Root
 	Strategy Strategy
 	ListMode ListMode
+	Binding  Binding
 	faults   map[string]bool
 	mu       sync.Mutex
 	calls    []Call
@@ -49,6 +62,8 @@ func NewWorld(u *Universe, st Strategy, lm ListMode) (*World, error) {
 	case Any:
 		w.Root = ggql.NewRoot(&anyNode{id: "$root"})
 		w.Root.AnyResolver = &anyRes{w: w}
+	case Refl:
+		w.Root = ggql.NewRoot(&refluni.Schema{B: w})
 	default:
 		return nil, fmt.Errorf("unknown strategy %s", st)
 	}
@@ -58,11 +73,51 @@ func NewWorld(u *Universe, st Strategy, lm ListMode) (*World, error) {
 	return w, nil
 }
 
+// NewReflWorld is NewWorld for the reflection strategy with a binding mode.
+func NewReflWorld(u *Universe, lm ListMode, b Binding) (*World, error) {
+	w := &World{U: u, Strategy: Refl, ListMode: lm, Binding: b, faults: map[string]bool{}, nodes: map[string]interface{}{}}
+	w.Root = ggql.NewRoot(&refluni.Schema{B: w})
+	sdl := u.SDL()
+	if b == BindGoDir {
+		for _, tn := range []string{"A", "B", "C"} {
+			sdl = strings.Replace(sdl, "type "+tn+" ", "type "+tn+" @go(type: \"refluni."+tn+"\") ", 1)
+			sdl = strings.Replace(sdl, "@go(type: \"refluni."+tn+"\") implements Named", "implements Named @go(type: \"refluni."+tn+"\")", 1)
+		}
+	}
+	if err := w.Root.ParseString(sdl); err != nil {
+		return nil, fmt.Errorf("universe schema rejected: %w\n%s", err, sdl)
+	}
+	if b == BindRegister {
+		for _, tn := range []string{"A", "B", "C", "Query", "Mutation"} {
+			if _, ok := u.Types[tn]; ok {
+				if err := w.Root.RegisterType(refluni.New(w, tn, ""), tn); err != nil {
+					return nil, err
+				}
+			}
+		}
+	}
+	return w, nil
+}
+
+// ReflResolve implements refluni.Backend.
+func (w *World) ReflResolve(id, field string, args map[string]interface{}) (interface{}, error) {
+	if id == "$root" {
+		if r, ok := w.U.Roots[field]; ok {
+			return w.node(r), nil
+		}
+		return nil, fmt.Errorf("no root %s", field)
+	}
+	return w.resolve(id, &ggql.Field{Name: field}, args)
+}
+
 func (w *World) SetFaults(f [][]string) {
 	w.faults = map[string]bool{}
 	for _, nf := range f {
 		if len(nf) == 2 {
 			w.faults[nf[0]+"."+nf[1]] = true
+		}
+		if len(nf) == 3 { // list accessor failure at index nf[2] of the list returned by nf[0].nf[1]
+			w.faults[nf[0]+"."+nf[1]+"#"+nf[2]] = true
 		}
 	}
 }
@@ -80,9 +135,12 @@ func (w *World) node(id string) interface{} {
 		return n
 	}
 	var n interface{}
-	if w.Strategy == Iface {
+	switch w.Strategy {
+	case Iface:
 		n = &resNode{w: w, id: id}
-	} else {
+	case Refl:
+		n = refluni.New(w, w.U.NodeType[id], id)
+	default:
 		n = &anyNode{id: id}
 	}
 	w.nodes[id] = n
@@ -124,6 +182,38 @@ func ArgToValue(a interface{}) Value {
 		return Obj(o)
 	}
 	return Value{K: "other", S: fmt.Sprintf("%T:%v", a, a)}
+}
+
+// ValStr mirrors Sem!ValStr: the rendering of an argument value by the echo resolvers.
+func (u *Universe) ValStr(t *TRef, v Value) string {
+	switch v.K {
+	case "list":
+		et := t
+		if et != nil && et.K == "nonnull" {
+			et = et.Of
+		}
+		if et != nil && et.K == "list" {
+			et = et.Of
+		}
+		s := "["
+		for _, e := range v.L {
+			s += u.ValStr(et, e) + ","
+		}
+		return s + "]"
+	case "obj":
+		s := "{"
+		if t != nil {
+			if td, ok := u.Types[t.Base()]; ok {
+				for _, f := range td.InFields {
+					if fv, has := v.O[f.N]; has {
+						s += f.N + ":" + u.ValStr(f.Type, fv) + ","
+					}
+				}
+			}
+		}
+		return s + "}"
+	}
+	return valStr(v)
 }
 
 func valStr(v Value) string {
@@ -168,7 +258,7 @@ func (w *World) resolve(id string, field *ggql.Field, args map[string]interface{
 		for _, a := range fd.Args {
 			b.WriteString(a.N + "=")
 			if av, has := am[a.N]; has {
-				b.WriteString(valStr(av))
+				b.WriteString(w.U.ValStr(a.Type, av))
 			} else {
 				b.WriteString("-")
 			}
@@ -186,7 +276,22 @@ func (w *World) resolve(id string, field *ggql.Field, args map[string]interface{
 		}
 		return nil, es
 	}
-	return w.toGo(v, 0), nil
+	out := w.toGo(v, 0)
+	if al, ok := out.(*anyList); ok {
+		al.origin = id + "." + field.Name
+	}
+	return out, nil
+}
+
+// HasNthFault reports whether the case injects a list accessor failure (only realisable
+// through AnyResolver.Nth).
+func HasNthFault(c *Case) bool {
+	for _, f := range c.Faults {
+		if len(f) == 3 {
+			return true
+		}
+	}
+	return false
 }
 
 type listRes struct {
@@ -200,8 +305,9 @@ func (l *listRes) Nth(i int) interface{} { return l.w.toGo(l.elems[i], l.depth+1
 
 // anyList is a list value only the AnyResolver knows how to walk.
 type anyList struct {
-	elems []Value
-	depth int
+	elems  []Value
+	depth  int
+	origin string
 }
 
 func (w *World) toGo(v Value, depth int) interface{} {
@@ -324,6 +430,9 @@ func (r *anyRes) Len(list interface{}) int {
 
 func (r *anyRes) Nth(list interface{}, i int) (interface{}, error) {
 	if l, ok := list.(*anyList); ok && 0 <= i && i < len(l.elems) {
+		if l.origin != "" && r.w.faults[l.origin+"#"+strconv.Itoa(i)] {
+			return nil, fmt.Errorf("injected accessor failure at %s[%d]", l.origin, i)
+		}
 		return r.w.toGo(l.elems[i], l.depth+1), nil
 	}
 	return nil, fmt.Errorf("bad list access")
@@ -430,6 +539,20 @@ func (w *World) Run(c *Case, lo Layout) *Actual {
 	vars := VarsToGo(c.Vars)
 	res := w.Root.ResolveString(c.Doc.Text(lo), c.Op, vars)
 	return FromResult(res, w.TakeCalls())
+}
+
+// RunExe resolves an already parsed executable and assembles the response the
+// way Root.ResolveReader does.
+func (w *World) RunExe(exe *ggql.Executable, op string, vars ValMap) *Actual {
+	w.TakeCalls()
+	result, err := w.Root.ResolveExecutable(exe, op, VarsToGo(vars))
+	if result == nil {
+		result = map[string]interface{}{"data": nil}
+	}
+	if err != nil {
+		result["errors"] = ggql.FormErrorsResult(err)
+	}
+	return FromResult(result, w.TakeCalls())
 }
 
 // VarsToGo builds the variable map the way a JSON decoder would.
